@@ -1032,7 +1032,7 @@ func runPorts(c *mon.Case) {
 
 var corpus = []string{
 	"echo a -1>/dev/null", "echo a 1>&-3", "echo a -9223372036854775808>&1", "echo a >&-1", "echo a 9223372036854775807> new1", "echo a 4611686018427387904>&1",
-	"math:pow 0 -1", "math:pow (num 0) (num -3)", "math:pow 0 (num -1/2)", "math:pow (num 0.0) -1", "math:pow 0 -9223372036854775808",
+	"math:pow 0 -1", "math:pow (num 0) (num -3)", "math:pow 0 (num -1/2)", "math:pow (num 0.0) -1", "math:pow 0 -9223372036854775808", "math:pow 0 -100000000000000000000", "math:pow 0 -9223372036854775809", "math:pow (num 0) 100000000000000000000", "math:pow 1 -100000000000000000000", "math:pow -1 100000000000000000001", "math:pow 0/5 -18446744073709551616",
 	"is (styled a red) (styled a red)", "var e = ?(fail x | fail y); is $e[reason] $e[reason]", "var t = (styled a red); is $t $t", "is [&a=(styled a red)] [&a=(styled a red)]", "is ?(fail x)[reason] ?(fail x)[reason]",
 	"read-bytes -1", "read-bytes (num -5) < in", "str:repeat abcd 4611686018427387904", "str:repeat ab 9223372036854775807", "str:repeat '' 9223372036854775807",
 	"run-parallel {|x| }", "run-parallel $nop~ {|x| }", "run-parallel { fail a } {|x| } { put b }",
